@@ -293,6 +293,8 @@ func (l *Lexer) NextToken() token.Token {
 			return tok
 		}
 		tok = newSingleCharToken(token.ILLEGAL, l.ch, l.lineNumber, l.charNumber, l.utf8CharNumber)
+		// The character may be longer than one byte.
+		tok.StartCharIndex = l.prevCharNumber
 	}
 
 	l.readChar()
